@@ -18,7 +18,15 @@
              'in both name orders on valid / empty / unparsable values; every member must behave as the '
              'function called on its own (Model: member_outcome / record_outcome; theorem '
              'unparsable_strict_member_fails_record); epoch strings are decimal only (zero-padded, signed, '
-             '0x/0b/0o/_ forms)'],
+             '0x/0b/0o/_ forms)',
+             'round-4 classes: ONE Schema with 2..4 transforms (sequential and alive at once) whose zone / '
+             "unit arguments come from each transform's own ExternalProperties; explicit layouts with zone "
+             'abbreviations (MST, RFC1123, UnixDate ...) checked against time.Parse(layout, text) as '
+             'documented, for every layoutTZ flag / layout combination (flag true: fromTZ ignored; flag '
+             "false: the text's wall reading is bound to fromTZ else toTZ); one object with 64 distinct "
+             '(fromTZ, toTZ) members on one node. Not covered: collisions of a 32-bit declaration digest '
+             'between two particular declarations (C19-r43) - found only by luck at this level; the id '
+             'source is pinned elsewhere (extractor)'],
  'assumptions': ['minute_aligned: the instant read back from RFC3339 text equals the input instant only '
                  'where the zone offset is a whole number of minutes (known finding F23: sub-minute '
                  'local-mean-time offsets; rfc3339_same_instant_refuted). Outside that guard nothing is '
